@@ -17,7 +17,7 @@
 From Verif Require Import Base.Prelude.
 Local Open Scope N_scope.
 
-Definition MaxValue : N := 2 ^ 60 - 1.
+Definition MaxValue : N := 1152921504606846975.   (* 2^60 - 1 *)
 
 (** selector -> (n, bits); the table [selector] of encoding.go *)
 Definition sel_n (s : N) : nat :=
